@@ -126,7 +126,10 @@ func mkOverlay(work string, timePatch bool) (string, map[string]int) {
 		subs := map[string][][2]string{
 			"main.go": {{`idleMasterTopicTimeout = time\.Second \* 4`, "idleMasterTopicTimeout = time.Millisecond * 120"},
 				{`uaTimerDelay = time\.Second \* 5`, "uaTimerDelay = time.Millisecond * 150"}},
-			"session.go": {{`deferredNotificationsTimeout = time\.Second \* 5`, "deferredNotificationsTimeout = time.Millisecond * 150"}},
+			"session.go": {{`deferredNotificationsTimeout = time\.Second \* 5`, "deferredNotificationsTimeout = time.Millisecond * 150"},
+				// delay points around the asynchronous detach of a session (harness/main/c14.go)
+				{`func \(s \*Session\) delStaleSub\(topic string\) \{\n`, "func (s *Session) delStaleSub(topic string) {\n\tvfFP(\"delStaleSubEnter\", topic+\"|\"+s.sid)\n"},
+				{`(\t\t\}\n\t\}\n)(\ts\.delSub\(topic\)\n\}\n\nfunc \(s \*Session\) countSub)`, "${1}\tvfFP(\"delStaleSubBeforeDel\", topic+\"|\"+s.sid)\n${2}"}},
 			"calls.go":   {{`time\.Duration\(globals\.callEstablishmentTimeout\) \* time\.Second`, "time.Duration(globals.callEstablishmentTimeout) * 10 * time.Millisecond"}},
 			// injected delay points (no-ops unless a scenario arms them, see harness/main/c01fp.go)
 			"topic.go": {{`hub\.unreg <- &topicUnreg\{rcptTo: t\.name\}`, `vfFP("topicTimeoutBeforeUnreg", t.name); hub.unreg <- &topicUnreg{rcptTo: t.name}`}},
